@@ -45,6 +45,7 @@ type taskRun struct {
 	done      bool
 	savedRand *randState
 	harness   any
+	errs      []error
 }
 
 type sched struct {
@@ -74,6 +75,7 @@ func (s *sched) hook(site int) {
 	s.yielded <- struct{}{}
 	<-t.resume
 	simRand.cur = t.savedRand
+	errSink = &t.errs
 }
 
 func (s *sched) runTask(t *taskRun) {
@@ -87,10 +89,13 @@ func (s *sched) runTask(t *taskRun) {
 	}()
 	<-t.resume
 	simRand.cur = nil
+	errSink = &t.errs
 	for i := range t.steps {
 		t.world.step = i
 		t.world.exec(&t.steps[i])
 	}
+	t.world.trace = append(t.world.trace, errsDigest(t.errs))
+	errSink = nil
 }
 
 func (s *sched) give(t *taskRun, quantum int) {
@@ -152,7 +157,10 @@ type parTask struct {
 	rnd   *taskRandHolder
 }
 
-type taskRandHolder struct{ cur *randState }
+type taskRandHolder struct {
+	cur  *randState
+	errs *[]error
+}
 
 func runParallel(tasks []Task, rounds [][]int, procs int) [][]string {
 	if procs > 0 {
@@ -163,7 +171,7 @@ func runParallel(tasks []Task, rounds [][]int, procs int) [][]string {
 	var wg sync.WaitGroup
 	var roundWG sync.WaitGroup
 	for i := range tasks {
-		pt := &parTask{world: newWorld("C18"), steps: tasks[i].Steps, start: make(chan int), rnd: &taskRandHolder{}}
+		pt := &parTask{world: newWorld("C18"), steps: tasks[i].Steps, start: make(chan int), rnd: &taskRandHolder{errs: new([]error)}}
 		pts[i] = pt
 		wg.Add(1)
 		go func(i int, pt *parTask) {
@@ -216,6 +224,7 @@ func runParallel(tasks []Task, rounds [][]int, procs int) [][]string {
 	simRand.byGoid = nil
 	var traces [][]string
 	for _, pt := range pts {
+		pt.world.trace = append(pt.world.trace, errsDigest(*pt.rnd.errs))
 		traces = append(traces, pt.world.trace)
 	}
 	return traces
@@ -451,7 +460,23 @@ func genTaskSteps(r *Rng, nops int, sharedMsg *MsgSpec, sharedProt *Step, allowS
 			s2 := suiteByIndex(r.Intn(54))
 			steps = append(steps, Step{Op: "mapping", Suite: &s2, SpiI: r.U64(), SpiR: r.U64()})
 		case 16:
-			steps = append(steps, Step{Op: "rand_u8", Rand: &RandScript{Seed: r.U64()}})
+			if r.Bool() {
+				steps = append(steps, Step{Op: "rand_u8", Rand: &RandScript{Seed: r.U64()}})
+			} else {
+				// a datagram carrying an unknown payload with the critical flag set: must be refused, and the
+				// error must keep naming THIS payload type whatever other tasks reject meanwhile
+				t := Pick[uint8](r, 1, 17, 32, 49, 77, 130, 200, 255)
+				body := r.Bytes(r.Intn(12))
+				l := 4 + len(body)
+				d := make([]byte, 28)
+				r.Fill(d[:16])
+				d[16], d[17], d[18], d[19] = t, 0x20, 37, 8
+				total := 28 + l
+				d[24], d[25], d[26], d[27] = byte(total>>24), byte(total>>16), byte(total>>8), byte(total)
+				d = append(d, 0, 0x80, byte(l>>8), byte(l))
+				d = append(d, body...)
+				steps = append(steps, Step{Op: "decode_raw", Data: d})
+			}
 		case 17:
 			steps = append(steps, Step{Op: "enc", Cipher: 0, Ref: nct, Data: r.Bytes(r.SmallLen(200)), Rand: &RandScript{Seed: r.U64()}})
 			steps = append(steps, Step{Op: "dec", Cipher: 0, Src: "own", N: 0, Ref: nct})
